@@ -169,7 +169,8 @@ pub fn get_expr(text: &str) -> Option<String> {
 }
 
 pub fn get_exprs(text: &str) -> Vec<(core::ops::Range<usize>, String)> {
-    let re = Regex::new(r"\{\{(.*)\}\}").unwrap();
+    // non-greedy: every {{ .. }} is an expression of its own, also when several share a line
+    let re = Regex::new(r"\{\{(.*?)\}\}").unwrap();
     re.find_iter(text)
         .map(|cap| (cap.range(), cap.as_str().to_string()))
         .collect()
